@@ -467,6 +467,18 @@ fn run_solve(kv: &HashMap<String, String>) -> String {
                                         maxdev = dlt;
                                     }
                                 }
+                                if std::env::var("IVPH_DEBUG").is_ok() {
+                                    if let Ok(g) = std::env::var("IVPH_GRID") {
+                                        let w: f64 = g.parse().unwrap();
+                                        let mut prev = true;
+                                        for k in -2000i32..=2000 {
+                                            let tt = *te + w * (k as f64) / 2000.0;
+                                            let ok = sol.sol(tt).is_ok();
+                                            if ok != prev { eprintln!("  grid: at t={:e} (k={}) sol ok -> {}", tt, k, ok); prev = ok; }
+                                        }
+                                    }
+                                    eprintln!("evsol-debug ev={} te={:e} ye={:?} sol={:?} before={:?} after={:?}", i, te, ye, v, sol.sol(*te * (1.0 - 1e-9)), sol.sol(*te * (1.0 + 1e-9)));
+                                }
                             }
                             Err(_) => fails += 1,
                         }
